@@ -175,13 +175,13 @@ theorem ScanSpec.cooked {out pend cs tail : Bytes} {c : UInt8} {r : ScanOut}
     simp [hm])
   nlHead := h.nlHead
 
-theorem scan_spec : ∀ (fuel : Nat) (nB nP : Int) (last : UInt8) (out pend rest tail : Bytes) (r : ScanOut),
-    scan fuel nB nP last out pend rest tail = some r → ScanSpec out pend rest tail r := by
+theorem scan_spec : ∀ (fuel : Nat) (nB nP : Int) (last : UInt8) (clo : Bool) (out pend rest tail : Bytes) (r : ScanOut),
+    scan fuel nB nP last clo out pend rest tail = some r → ScanSpec out pend rest tail r := by
   intro fuel
   induction fuel with
-  | zero => intro nB nP last out pend rest tail r h; simp [scan] at h
+  | zero => intro nB nP last clo out pend rest tail r h; simp [scan] at h
   | succ f ih =>
-    intro nB nP last out pend rest tail r h
+    intro nB nP last clo out pend rest tail r h
     cases rest with
     | nil =>
       simp only [scan, Option.some.injEq] at h
@@ -190,17 +190,17 @@ theorem scan_spec : ∀ (fuel : Nat) (nB nP : Int) (last : UInt8) (out pend rest
     | cons c cs =>
       unfold scan at h
       split at h
-      · exact (ih _ _ _ _ _ _ _ _ h).step
+      · exact (ih _ _ _ _ _ _ _ _ _ h).step
       split at h
-      · exact (ih _ _ _ _ _ _ _ _ h).step
+      · exact (ih _ _ _ _ _ _ _ _ _ h).step
       split at h
-      · exact (ih _ _ _ _ _ _ _ _ h).step
+      · exact (ih _ _ _ _ _ _ _ _ _ h).step
       split at h
-      · exact (ih _ _ _ _ _ _ _ _ h).step
+      · exact (ih _ _ _ _ _ _ _ _ _ h).step
       split at h
       · -- '/'
         split at h
-        · exact (ih _ _ _ _ _ _ _ _ h).step
+        · exact (ih _ _ _ _ _ _ _ _ _ h).step
         · rename_i d ds
           split at h
           · simp only [Option.some.injEq] at h
@@ -208,23 +208,23 @@ theorem scan_spec : ∀ (fuel : Nat) (nB nP : Int) (last : UInt8) (out pend rest
             exact ⟨by simp, by simp, fun h1 h2 => by
               simp only [List.mem_append, List.mem_reverse, not_or]; exact ⟨h1, h2⟩, fun h => h⟩
           split at h
-          · have := (ih _ _ _ _ _ _ _ _ h)
+          · have := (ih _ _ _ _ _ _ _ _ _ h)
             exact ScanSpec.raw (pre := [c, d]) (mid := ds) (q := starSlash) (by simpa using this)
-          · exact (ih _ _ _ _ _ _ _ _ h).step
+          · exact (ih _ _ _ _ _ _ _ _ _ h).step
       split at h
-      · exact (ih _ _ _ _ _ _ _ _ h).cooked
+      · exact (ih _ _ _ _ _ _ _ _ _ h).cooked
       split at h
-      · have := (ih _ _ _ _ _ _ _ _ h)
+      · have := (ih _ _ _ _ _ _ _ _ _ h)
         exact ScanSpec.raw (pre := [c]) (mid := cs) (q := backTick) (by simpa using this)
-      · exact (ih _ _ _ _ _ _ _ _ h).step
+      · exact (ih _ _ _ _ _ _ _ _ _ h).step
 
-theorem scan_isSome : ∀ (fuel : Nat) (nB nP : Int) (last : UInt8) (out pend rest tail : Bytes),
-    rest.length + tail.length < fuel → (scan fuel nB nP last out pend rest tail).isSome := by
+theorem scan_isSome : ∀ (fuel : Nat) (nB nP : Int) (last : UInt8) (clo : Bool) (out pend rest tail : Bytes),
+    rest.length + tail.length < fuel → (scan fuel nB nP last clo out pend rest tail).isSome := by
   intro fuel
   induction fuel with
-  | zero => intro nB nP last out pend rest tail h; omega
+  | zero => intro nB nP last clo out pend rest tail h; omega
   | succ f ih =>
-    intro nB nP last out pend rest tail h
+    intro nB nP last clo out pend rest tail h
     cases rest with
     | nil => simp [scan]
     | cons c cs =>
@@ -239,29 +239,29 @@ theorem scan_isSome : ∀ (fuel : Nat) (nB nP : Int) (last : UInt8) (out pend re
         omega
       unfold scan
       split
-      · exact ih _ _ _ _ _ _ _ hstep
+      · exact ih _ _ _ _ _ _ _ _ hstep
       split
-      · exact ih _ _ _ _ _ _ _ hstep
+      · exact ih _ _ _ _ _ _ _ _ hstep
       split
-      · exact ih _ _ _ _ _ _ _ hstep
+      · exact ih _ _ _ _ _ _ _ _ hstep
       split
-      · exact ih _ _ _ _ _ _ _ hstep
+      · exact ih _ _ _ _ _ _ _ _ hstep
       split
       · split
-        · exact ih _ _ _ _ _ _ _ hstep
+        · exact ih _ _ _ _ _ _ _ _ hstep
         · rename_i d ds
           split
           · simp
           split
-          · exact ih _ _ _ _ _ _ _ (hraw _ ds (by simp))
-          · exact ih _ _ _ _ _ _ _ hstep
+          · exact ih _ _ _ _ _ _ _ _ (hraw _ ds (by simp))
+          · exact ih _ _ _ _ _ _ _ _ hstep
       split
-      · refine ih _ _ _ _ _ _ _ ?_
+      · refine ih _ _ _ _ _ _ _ _ ?_
         have := skipCooked_len c cs
         omega
       split
-      · exact ih _ _ _ _ _ _ _ (hraw _ cs (Nat.le_refl _))
-      · exact ih _ _ _ _ _ _ _ hstep
+      · exact ih _ _ _ _ _ _ _ _ (hraw _ cs (Nat.le_refl _))
+      · exact ih _ _ _ _ _ _ _ _ hstep
 
 end WuffsVerif.Indent
 
@@ -272,7 +272,7 @@ theorem codeLine_isSome (o : Opts) (ii : Nat) (st : St) (line tail : Bytes) :
   unfold codeLine
   simp only []
   have h := scan_isSome ((line.drop (closeBracesOf line)).length + tail.length + 1)
-    (nBracesAtLineStart st line) st.nParens (lastNonWs (line.drop (closeBracesOf line))) [] []
+    (nBracesAtLineStart st line) st.nParens (lastNonWs (line.drop (closeBracesOf line))) true [] []
     (line.drop (closeBracesOf line)) tail (Nat.lt_succ_self _)
   split
   · rename_i hs; rw [hs] at h; simp at h
@@ -296,7 +296,7 @@ theorem codeLine_spec (o : Opts) (ii : Nat) (st : St) (line tail : Bytes) (text 
   · rename_i r hs
     simp only [Option.some.injEq, Prod.mk.injEq] at h
     obtain ⟨h1, h2, h3⟩ := h
-    have sp := scan_spec _ _ _ _ _ _ _ _ _ hs
+    have sp := scan_spec _ _ _ _ _ _ _ _ _ _ hs
     refine ⟨codeIndent o ii st (nBracesAtLineStart st line), line.take (closeBracesOf line) ++ r.out, r.line, ?_, ?_, ?_, ?_, ?_, ?_⟩
     · rw [← h1]; simp
     · have := sp.bytes
